@@ -30,6 +30,7 @@ fn main() {
             "C07" => mc::checks::c07::replay(&v["case"]),
             "C09" => mc::checks::c09::replay(&v["case"]),
             "C10" => mc::checks::c10::replay(&v["case"]),
+            "C11" => mc::checks::c11::replay(&v["case"]),
             "C12" => mc::checks::c12::replay(&v["case"]),
             _ => {
                 eprintln!("no replay for {}", id);
@@ -58,6 +59,7 @@ fn main() {
         "C08" => mc::checks::c08::run(rep),
         "C09" => mc::checks::c09::run(rep),
         "C10" => mc::checks::c10::run(rep),
+        "C11" => mc::checks::c11::run(rep),
         "C12" => mc::checks::c12::run(rep),
         _ => {
             eprintln!("unknown check {}", id);
